@@ -101,17 +101,17 @@ _P["C03"] = {
 }
 
 _PKT_TRUSTED = ["Model/Proto.v decoders hand-written from package protocol (exact-capacity buffers); encoders via Model/Wire.v layouts",
-                "IGMP, DHCP and LLDP are not modelled in Coq: for them the run checks the property's oracle on the implementation only (no theorem)"]
+                "Model/Proto2.v (IGMP, DHCP, LLDP, stand-alone 802.1Q tag and IPv6 option: record values with decoder, encoder and reported size) hand-written from igmp.go, dhcp.go, lldp.go; bytes.Buffer / binary.Read of the DHCP and LLDP decoders are modelled as slice reads under the length guards; the harness presents the Read/Write kinds to the worker through a 12-line util.Message wrapper"]
 _P["C08"] = {
-    "explanation": "Theorems C08_* (Properties/C08.v): the modelled packet decoders (Ethernet+VLAN, ARP, IPv4, IPv6 + extension headers, ICMP, UDP, TCP) "
-                   "return a value or an error on every byte string - no panic, no fuel exhaustion; correspondence on truncations at every offset, "
+    "explanation": "Theorems C08_* (Properties/C08.v): the modelled packet decoders (Ethernet+VLAN, ARP, IPv4, IPv6 + extension headers, ICMP, UDP, TCP; Model/Proto2.v: IGMP v1/v2/v3, DHCP and its options, LLDP TLVs and header, 802.1Q tag, IPv6 option) "
+                   "return a value or an error on every byte string - no panic, no fuel exhaustion (every loop consumes input: extension-header chain, option walks, group records of a report); correspondence on truncations at every offset, "
                    "boundary bytes and mutations, each decode in a watchdog subprocess (time and heap limits).",
     "trusted_base": _PKT_TRUSTED, "assumptions": ["time/memory proportionality is measured by the 3 s / 1 GiB limits, not proved"],
     "harness_timeout": {"quick": 900, "thorough": 3000},
 }
 _P["C09"] = {
     "explanation": "Theorems C09_* (Properties/C09.v): bit-lane lemmas for every packed group for all values; demultiplexing rules; C09_roundtrip (Proofs/PktRtP.v): for every packet recipe (Ethernet with or without 802.1Q tag, ARP, IPv4 with options, "
-                   "IPv6 with any extension-header chain, ICMP, UDP, opaque) whose fields fit and whose selectors are consistent, decoding the encoding gives the packet back; C09_roundtrip_refuted (priority tag, D31); "
+                   "IPv6 with any extension-header chain, ICMP, UDP, opaque) whose fields fit and whose selectors are consistent, decoding the encoding gives the packet back; C09_<kind>_roundtrip (Proofs/Proto2RtP.v) for IGMP v1/v2/v3 query, group record and report, DHCP with options, LLDP TLVs and header, 802.1Q tag, IPv6 option: well-formed values decode from their encoding and report the encoded size; "
                    "correspondence: frames through encode/decode/encode with the demultiplexing decided from the bytes by an independent function, lanes exhaustively.",
     "trusted_base": _PKT_TRUSTED, "assumptions": [],
 }
